@@ -64,7 +64,7 @@ type ExprGen struct {
 func (g *ExprGen) varsOf(kind string) []VarBind {
 	var out []VarBind
 	for _, v := range g.Env.Vars {
-		if v.Val.Kind == kind {
+		if v.Val.Kind == kind && !(kind == "nodes" && v.Local == "u") {
 			out = append(out, v)
 		}
 	}
